@@ -8,6 +8,7 @@ import (
 	"encoding/hex"
 	"encoding/json"
 	"fmt"
+	"io"
 	"os"
 	"os/exec"
 	"time"
@@ -90,28 +91,34 @@ type ChildOut struct {
 	Blocks   []BlockObs        `json:"blocks"`
 	Digests  map[string]string `json:"digests"`
 	TreeSize string            `json:"state_tree"`
+	Millis   int64             `json:"ms"`
 }
 
 func init() {
 	if os.Getenv(childEnv) == "" {
 		return
 	}
-	var job Job
-	out := &ChildOut{}
-	if err := json.NewDecoder(bufio.NewReaderSize(os.Stdin, 1<<20)).Decode(&job); err != nil {
-		out.Fatal = "decode job: " + err.Error()
-	} else {
+	var jobs []Job
+	var outs []*ChildOut
+	if err := json.NewDecoder(bufio.NewReaderSize(os.Stdin, 1<<20)).Decode(&jobs); err != nil {
+		outs = append(outs, &ChildOut{Fatal: "decode jobs: " + err.Error()})
+	}
+	for i := range jobs {
+		out := &ChildOut{}
+		t0 := time.Now()
 		func() {
 			defer func() {
 				if r := recover(); r != nil {
 					out.Fatal = fmt.Sprintf("panic: %v", r)
 				}
 			}()
-			runJob(&job, out)
+			runJob(&jobs[i], out)
 		}()
+		out.Millis = time.Since(t0).Milliseconds()
+		outs = append(outs, out)
 	}
 	w := bufio.NewWriter(os.Stdout)
-	json.NewEncoder(w).Encode(out)
+	json.NewEncoder(w).Encode(outs)
 	w.Flush()
 	os.Exit(0)
 }
@@ -381,29 +388,84 @@ func runSyncer(job *Job, k *ledgerkit.Kit, out *ChildOut) {
 	}
 }
 
-// runChild starts one node process.
-func runChild(job *Job, timeout time.Duration) (*ChildOut, error) {
+// runChildren starts one node process that works through the jobs in order (one ledger open at a
+// time). When the process dies without an answer the jobs are re-run one per process, so that a
+// crash is attributed to the job that caused it.
+func runChildren(jobs []*Job, timeout time.Duration) []*ChildOut {
+	outs, err := runChildOnce(jobs, timeout)
+	if err == nil && len(outs) == len(jobs) {
+		return outs
+	}
+	if len(jobs) == 1 {
+		return []*ChildOut{{Fatal: "node process: " + err.Error()}}
+	}
+	outs = nil
+	for _, j := range jobs {
+		outs = append(outs, runChildren([]*Job{j}, timeout)...)
+	}
+	return outs
+}
+
+func runChildOnce(jobs []*Job, timeout time.Duration) ([]*ChildOut, error) {
+	p, err := startNode(timeout)
+	if err != nil {
+		return nil, err
+	}
+	return p.finish(jobs)
+}
+
+// nodeProc is a started node process that has not been given its jobs yet (it initialises while
+// the parent is busy with something else).
+type nodeProc struct {
+	cmd            *exec.Cmd
+	stdin          io.WriteCloser
+	stdout, stderr bytes.Buffer
+	cancel         context.CancelFunc
+}
+
+func startNode(timeout time.Duration) (*nodeProc, error) {
 	self, err := os.Executable()
 	if err != nil {
 		return nil, err
 	}
-	in, _ := json.Marshal(job)
 	ctx, cancel := context.WithTimeout(context.Background(), timeout)
-	defer cancel()
-	cmd := exec.CommandContext(ctx, self)
-	cmd.Env = append(os.Environ(), childEnv+"=1")
-	cmd.Stdin = bytes.NewReader(in)
-	var stdout, stderr bytes.Buffer
-	cmd.Stdout = &stdout
-	cmd.Stderr = &stderr
-	runErr := cmd.Run()
-	var out ChildOut
-	if err := json.Unmarshal(stdout.Bytes(), &out); err != nil {
-		tail := stderr.String()
+	p := &nodeProc{cancel: cancel}
+	p.cmd = exec.CommandContext(ctx, self)
+	p.cmd.Env = append(os.Environ(), childEnv+"=1")
+	p.cmd.Stdout = &p.stdout
+	p.cmd.Stderr = &p.stderr
+	if p.stdin, err = p.cmd.StdinPipe(); err != nil {
+		cancel()
+		return nil, err
+	}
+	if err := p.cmd.Start(); err != nil {
+		cancel()
+		return nil, err
+	}
+	return p, nil
+}
+
+// finish hands the jobs to the process and waits for its answer.
+func (p *nodeProc) finish(jobs []*Job) ([]*ChildOut, error) {
+	defer p.cancel()
+	in, _ := json.Marshal(jobs)
+	_, werr := p.stdin.Write(in)
+	p.stdin.Close()
+	runErr := p.cmd.Wait()
+	var outs []*ChildOut
+	if err := json.Unmarshal(p.stdout.Bytes(), &outs); err != nil {
+		tail := p.stderr.String()
 		if len(tail) > 600 {
 			tail = tail[len(tail)-600:]
 		}
-		return nil, fmt.Errorf("child %s: %v / %v / stderr: %s", job.Role, runErr, err, tail)
+		return nil, fmt.Errorf("%v / %v / %v / stderr: %s", werr, runErr, err, tail)
 	}
-	return &out, nil
+	return outs, nil
+}
+
+// abandon stops a started process that turned out not to be needed.
+func (p *nodeProc) abandon() {
+	p.stdin.Close()
+	p.cancel()
+	p.cmd.Wait()
 }
